@@ -1347,9 +1347,10 @@ def compile_match_expression(compiler, expr, root, subject, clauses):
             )
         )
 
+    return_name = asty.Name(expr, id=return_var.id, ctx=ast.Load())
     returnable = Result(
-        expr=asty.Name(expr, id=return_var.id, ctx=ast.Load()),
-        temp_variables=[return_var],
+        expr=return_name,
+        temp_variables=[return_name, return_var],
     )
     ret = Result() + subject
     ret += asty.Assign(
@@ -1577,9 +1578,10 @@ def compile_try_expression(compiler, expr, root, body, catchers, orelse, finalbo
         finalbody += finalbody.expr_as_stmt()
         finalbody = finalbody.stmts
 
+    return_name = asty.Name(expr, id=return_var.id, ctx=ast.Load())
     returnable = Result(
-        expr=asty.Name(expr, id=return_var.id, ctx=ast.Load()),
-        temp_variables=[return_var],
+        expr=return_name,
+        temp_variables=[return_name, return_var],
     )
     body += (
         body.expr_as_stmt()
